@@ -1435,7 +1435,7 @@ def compile_pattern(compiler, pattern):
             value,
             cls=cls,
             patterns=[compile_pattern(compiler, v) for v in args],
-            kwd_attrs=[kwd.name for kwd in keywords],
+            kwd_attrs=[mangle(kwd.name) for kwd in keywords],
             kwd_patterns=[compile_pattern(compiler, value) for value in values],
         )
     elif isinstance(value, Keyword):
